@@ -18,7 +18,8 @@ Ctx == ("x" :> Str(Payload)) @@ ("sh" :> Safe(Str(Payload), {"html"})) @@ ("sj" 
 Names == {"a.html", "a.js", "a.css", "a.txt", "a", "a.foo", "a.html.twig", "a.js.twig", "d.js/a", "a.url", "a.html_attr", "a.HTML", "inline",
           "a.txt.html", "a.min.js", "a.js.html", "a.html.txt.twig", "v1.2/a.css", "a.b.c.css.twig", ".js", "a."}
 Forms == {"plain", "escape", "escape-js", "escape-attr", "escape-css", "escape-url", "raw", "safe-html", "safe-js", "filtered",
-          "concat", "literal", "number", "empty", "escape-raw", "tern", "stringer", "stringer-escape", "stringer-js"}
+          "concat", "literal", "number", "empty", "escape-raw", "tern", "stringer", "stringer-escape", "stringer-js",
+          "tern-raw-else", "tern-raw-then", "tern-esc-else", "tern-paren-raw", "tern-chain-raw"}
 Places == {"top", "if", "else", "for", "block", "inherited", "included", "embedded", "override", "capture", "section", "macro", "forelse"}
 
 PrintOf(form) ==
@@ -38,6 +39,12 @@ PrintOf(form) ==
     [] form = "empty" -> PrintS(NameE("e"))
     [] form = "escape-raw" -> PrintS(Pipe(Pipe(NameE("x"), "escape", <<>>), "raw", <<>>))
     [] form = "stringer" -> PrintS(NameE("st"))
+    (* conditionals with an explicit raw/escape on ONE branch; the other branch is selected *)
+    [] form = "tern-raw-else" -> PrintS(Tern(BoolE(FALSE), Pipe(NameE("x"), "raw", <<>>), NameE("x")))
+    [] form = "tern-raw-then" -> PrintS(Tern(BoolE(TRUE), NameE("x"), Pipe(NameE("x"), "raw", <<>>)))
+    [] form = "tern-esc-else" -> PrintS(Tern(BoolE(FALSE), Pipe(NameE("x"), "escape", <<StrE("js")>>), NameE("x")))
+    [] form = "tern-paren-raw" -> PrintS(Grp(Tern(BoolE(TRUE), NameE("x"), Pipe(NameE("x"), "raw", <<>>))))
+    [] form = "tern-chain-raw" -> PrintS(Tern(BoolE(FALSE), Pipe(NameE("x"), "raw", <<>>), Tern(BoolE(TRUE), NameE("x"), Pipe(NameE("x"), "raw", <<>>))))
     [] form = "stringer-escape" -> PrintS(Pipe(NameE("st"), "escape", <<>>))
     [] form = "stringer-js" -> PrintS(Pipe(NameE("st"), "escape", <<StrE("js")>>))
     [] OTHER -> PrintS(Tern(BoolE(TRUE), NameE("x"), StrE("<")))
@@ -61,6 +68,7 @@ Seg(form, ct) ==
     [] form = "empty" -> <<>>
     [] form = "escape-raw" -> E("html", Payload)
     [] form = "stringer" -> E(ct, Payload)
+    [] form \in {"tern-raw-else", "tern-raw-then", "tern-esc-else", "tern-paren-raw", "tern-chain-raw"} -> E(ct, Payload)
     [] form = "stringer-escape" -> E("html", Payload)
     [] form = "stringer-js" -> E("js", Payload)
     [] OTHER -> E(ct, Payload)
